@@ -1,7 +1,7 @@
-(* PropC07.v — C07: entries of any size round-trip at any block alignment (in-memory record log, every block size 7 < B <= 65542, any checksum function).
+(* PropC07.v — C07: entries of any size round-trip at any block or file alignment (in-memory record log and the rolling WAL files; every block size 7 < B <= 65542, any number of blocks per file, any checksum function).
    Statements only; each theorem is closed by `exact <lemma>`; proofs live in the imported files. *)
 From Coq Require Import Lia NArith List.
-From MRL Require Import Bytes Params Frame Driver StreamProofs RecordProofs.
+From MRL Require Import Bytes Params Names Frame Record Mem Rolling Log Driver StreamProofs RecordProofs FileStream.
 
 (* any list of entries of any sizes: read back identical and in order, then end of log; no fuel exhausted; byte counts add up to the stream length *)
 Theorem C07_roundtrip_mem :
@@ -41,15 +41,85 @@ Print Assumptions C07_write_count.
 
 (* the entry codec on top: every well-formed entry decodes to itself *)
 Theorem C07_entry_codec :
-    forall e : Record.entry, wf_entry e -> Record.entry_deser (Record.entry_ser e) = Some e.
+    forall e : entry, wf_entry e -> entry_deser (entry_ser e) = Some e.
 Proof. exact entry_roundtrip. Qed.
 Print Assumptions C07_entry_codec.
 
 (* and every batch of records *)
 Theorem C07_batch_codec :
     forall recs : list (N * bytes),
-    Forall wf_rec recs ->
-    Record.multi_parse (Record.multi_fuel (Record.multi_ser recs)) (Record.multi_ser recs) = Some recs.
+    Forall wf_rec recs -> multi_parse (multi_fuel (multi_ser recs)) (multi_ser recs) = Some recs.
 Proof. exact multi_roundtrip. Qed.
 Print Assumptions C07_batch_codec.
+
+(* through the rolling files, from a fresh directory: writing never fails, returns the same byte counts as the in-memory writer; after a clean drop the rolling reader returns exactly the entries, in order, then end of log; the writer rebuilt from the reader has the same files, the same current file and the same offset up to the zero padding the writer would emit anyway (entries spanning several blocks and files included; total size below 2^64 files) *)
+Theorem C07_roundtrip_files :
+    forall P : params,
+    7 < BS P ->
+    BS P <= 65542 ->
+    1 <= NB P ->
+    (forall (t : byte) (p : bytes), crcf P t p < 2 ^ 32) ->
+    forall (pol : policy) (st0 : state) (es : list bytes),
+    open P [] None pol [] = OpenOk st0 ->
+    vw_cursor (fst (mem_write_all P {| vw_cursor := 0; vw_buf := [] |} es)) <= MAXLEN P ->
+    exists w' : rwriter,
+    file_write_all P (s_wr st0) es =
+    (w', Ok (snd (mem_write_all P {| vw_cursor := 0; vw_buf := [] |} es))) /\
+    (forall (qs : queues) (pol' : policy),
+    let fs' := c_fs (drop_log {| s_wr := w'; s_qs := qs; s_pol := pol' |}) in
+    exists (c : ioctx) (rd : rreaderS),
+    rd_open P (ctx_init fs' None) = (c, Ok rd) /\
+    (forall fuel gofuel : nat,
+    (length es < fuel)%nat ->
+    lenN (w_files w') * FILE_BYTES P <= 7 * N.of_nat gofuel ->
+    exists rr : rreader rreaderS,
+    file_read_all P fuel gofuel (rr_open rreaderS rd) = (map FrEntry es ++ [FrEnd], rr) /\
+    (let wr := rd_into_writer P (fr_rd (rr_fr rr)) (fr_cursor (rr_fr rr)) in
+    w_files wr = w_files w' /\
+    w_file wr = w_file w' /\
+    w_off wr = norm_off P (w_off w') /\
+    w_pending wr = [] /\ c_fs (w_ctx wr) = fs' /\ c_plan (w_ctx wr) = None))).
+Proof. exact file_roundtrip. Qed.
+Print Assumptions C07_roundtrip_files.
+
+(* the rolling reader over full-size files is the block reader over their concatenation *)
+Theorem C07_reader_is_stream_reader :
+    forall P : params,
+    0 < BS P ->
+    1 <= NB P ->
+    forall (fs : fsT) (files : list N),
+    Sorted.StronglySorted N.lt files ->
+    (forall n : N,
+    In n files -> exists b : bytes, fs_get fs (filename n) = Some (FFile b) /\ lenN b = FILE_BYTES P) ->
+    forall (r : rreaderS) (v : vecr),
+    rd_rel P fs files r v ->
+    snd (rd_next P r) = snd (vr_next P v) /\ rd_rel P fs files (fst (rd_next P r)) (fst (vr_next P v)).
+Proof. exact rd_next_sim. Qed.
+Print Assumptions C07_reader_is_stream_reader.
+
+(* after the restart the writer continues the same stream *)
+Theorem C07_restart_continues_stream :
+    forall P : params,
+    7 < BS P ->
+    BS P <= 65542 ->
+    1 <= NB P ->
+    (forall (t : byte) (p : bytes), crcf P t p < 2 ^ 32) ->
+    forall (pol : policy) (st0 : state) (es : list bytes),
+    open P [] None pol [] = OpenOk st0 ->
+    vw_cursor (fst (mem_write_all P {| vw_cursor := 0; vw_buf := [] |} es)) <= MAXLEN P ->
+    exists (w' : rwriter) (c : ioctx) (rd : rreaderS),
+    file_write_all P (s_wr st0) es =
+    (w', Ok (snd (mem_write_all P {| vw_cursor := 0; vw_buf := [] |} es))) /\
+    rd_open P (ctx_init (PolicyProofs.vfs w') None) = (c, Ok rd) /\
+    (forall fuel gofuel : nat,
+    (length es < fuel)%nat ->
+    lenN (w_files w') * FILE_BYTES P <= 7 * N.of_nat gofuel ->
+    exists rr : rreader rreaderS,
+    file_read_all P fuel gofuel (rr_open rreaderS rd) = (map FrEntry es ++ [FrEnd], rr) /\
+    (let wr := rd_into_writer P (fr_rd (rr_fr rr)) (fr_cursor (rr_fr rr)) in
+    let v' := fst (mem_write_all P {| vw_cursor := 0; vw_buf := [] |} es) in
+    let pad := norm_off P (w_off w') - w_off w' in
+    wsim' P (MAXLEN P) wr {| vw_cursor := vw_cursor v' + pad; vw_buf := vw_buf v' ++ zerosN pad |})).
+Proof. exact file_roundtrip_reopen. Qed.
+Print Assumptions C07_restart_continues_stream.
 
